@@ -4,6 +4,8 @@ pub mod c03;
 pub mod c04;
 pub mod c05;
 pub mod c06;
+pub mod c10;
+pub mod c11;
 pub mod c14;
 pub mod c17;
 pub mod c19;
